@@ -20,6 +20,11 @@ CALIB_RULE = ('generated models (1-3 signatures) x recipes needing calibration (
               'x datasets of 1-4 random samples; every signature calibrated, chained through '
               'previous_calibration_result; one random split per signature for the resume law; '
               'non-trivial = result with >= 2 entries; distinct = distinct model/recipe/data literal')
+STATIC_RULE = ('; static oracle: every returned model checked operand by operand against the dtype the recipe '
+               'resolution implies (C03), every quantized tensor against the op-level parameter rules and the '
+               'float64 reference formula on the statistics (C04), every rewritten constant decoded by an '
+               'independent decoder and compared with the original (C05), every shared buffer against all '
+               'tensors on it (C15)')
 GRAPH_TB = [
     'parameters enter Insts/Perform as equality classes computed by the harness with Python == (UniformQuantParams.__eq__), plus (kind, bits, has_data)',
     'flatbuffers encoder/decoder, tensorflow.lite.tools.flatbuffer_utils and copy.deepcopy are exercised (interface E re-parses the returned bytes), not modelled',
@@ -152,5 +157,67 @@ PROPS = {
         'assumptions': [
             'Part 1 theorems are about the ideal real arithmetic; the float32-vs-real rounding envelope is not proved (stated)',
             'Part 2 sweeps are finite computations over the grid stated in the theorem'],
+    },
+    'C03': {
+        'steps': [{'script': 'corr_plan.py', 'timeout': 1500, 'timeout_thorough': 6000},
+                  {'script': 'corr_graph.py', 'timeout': 1500, 'timeout_thorough': 6000},
+                  {'script': 'oracle_static.py', 'timeout': 1500, 'timeout_thorough': 6000}],
+        'required_theorems': ['C03_mode_table', 'C03_policy_configs_have_a_mode',
+                              'C03_unselected_op_untouched', 'C03_nonfloat_operand_never_quantized',
+                              'C03_quantize_tensor_effect',
+                              'C03_inserted_op_converts_between_neighbour_dtypes',
+                              'C03_dtype_of_bit_width'],
+        'rule': GRAPH_RULE + STATIC_RULE,
+        'trusted_base': COMMON_TB + GRAPH_TB,
+        'assumptions': GRAPH_ASSUME + [
+            'theorems are per layer (decision function, plan of unselected ops / ignored operands, one performer step); the composition through horizontal grouping and the three vertical rewrites is validated by correspondences P, I, T/E and by the per-operand dtype oracle on every returned model, not proved',
+            'the dtype oracle derives the expected dtype of every operand from the recipe resolution (RecipeManager + quantization-side scope) only'],
+    },
+    'C04': {
+        'steps': [{'script': 'corr_plan.py', 'timeout': 1500, 'timeout_thorough': 6000},
+                  {'script': 'corr_arith.py', 'timeout': 1500, 'timeout_thorough': 6000},
+                  {'script': 'oracle_static.py', 'timeout': 1500, 'timeout_thorough': 6000}],
+        'required_theorems': ['C04_parameters_from_own_statistics',
+                              'C04_same_scale_results_share_operand_parameters',
+                              'C04_concat_operands_share_result_parameters',
+                              'C04_bias_from_input_and_weight', 'C04_fixed_output_range',
+                              'C04_fixed_range_literals', 'C04_per_channel_dimension',
+                              'C04_activation_configs_are_per_tensor',
+                              'C04_reference_parameters_wellformed'],
+        'rule': GRAPH_RULE + STATIC_RULE,
+        'trusted_base': COMMON_TB + GRAPH_TB + [
+            'Flocq 4.1 and the Coq Reals for the numeric clause (axioms as reported)',
+            'provenance terms are evaluated by the harness with the library\'s own numeric functions (tensor_zp_scale_from_min_max, uniform_quantize, symmetric_quantize_bias_tensor) whose bit-exact model is C17\'s; the independent oracle re-derives activation parameters in float64 from statistics'],
+        'assumptions': GRAPH_ASSUME + [
+            'statistics themselves (what the interpreter computed) are runtime data',
+            'numeric clause proved on the ideal arithmetic; float32 implementation tied bit-exactly by correspondence A (C17)'],
+    },
+    'C05': {
+        'steps': [{'script': 'corr_arith.py', 'timeout': 1500, 'timeout_thorough': 6000},
+                  {'script': 'corr_graph.py', 'timeout': 1500, 'timeout_thorough': 6000},
+                  {'script': 'oracle_static.py', 'timeout': 1500, 'timeout_thorough': 6000}],
+        'required_theorems': ['C05_int4_stored_length', 'C05_int4_unpack_pack',
+                              'C05_symmetric_constant_within_half_step',
+                              'C05_asymmetric_constant_within_half_step',
+                              'C05_bias_is_round_half_even', 'C05_float16_is_rne', 'C05_pack_pin'],
+        'rule': GRAPH_RULE + STATIC_RULE,
+        'trusted_base': COMMON_TB + GRAPH_TB + [
+            'Flocq 4.1 and the Coq Reals (axioms as reported)',
+            'numpy tobytes / little-endian layout of int8/16/32/64 is exercised by interface E (bytes of every rewritten buffer compared with an independent re-packing), not modelled'],
+        'assumptions': [
+            'decode-error theorems are about the ideal arithmetic (half a step, both symmetries); the float32-vs-real envelope is not proved: the decode oracle allows bound*(1+2^-10) + |x|*2^-22',
+            'bias: |q - b/s| <= 1/2 + |b/s|*2^-22 unless saturating (the code multiplies by a float32 inverse scale)'],
+    },
+    'C15': {
+        'steps': [{'script': 'corr_plan.py', 'timeout': 1500, 'timeout_thorough': 6000},
+                  {'script': 'corr_graph.py', 'timeout': 1500, 'timeout_thorough': 6000},
+                  {'script': 'oracle_static.py', 'timeout': 1500, 'timeout_thorough': 6000}],
+        'required_theorems': ['C15_compatible_users_agree', 'C15_write_is_consistent',
+                              'C15_second_write_same_bytes'],
+        'rule': GRAPH_RULE + STATIC_RULE,
+        'trusted_base': COMMON_TB + GRAPH_TB,
+        'assumptions': GRAPH_ASSUME + [
+            'the loop of _check_buffer_sharing over buffer groups is hand-modelled (Model/Plan.v check_buffer_sharing_with) and tied by correspondence P (same RuntimeError / same acceptance); the pairwise predicate is regenerated',
+            'value closeness for every consumer is C05 applied to the (constant, parameters) pair'],
     },
 }
